@@ -36,6 +36,11 @@ def save_jobs(tier):
              "_obligation": "O1+O2", "_covers": ["faulted"], "unwind": 160} for b in (0, 1)]
 
 
+def index_jobs(tier):
+    return [{"id": f"O1.index.unique{u}.{nm}", "func": "VerifH_C05_IndexFaults", "conf": {"unique": u, "op": i, "window": 12, "dag": "", "orders": "all", "shortid": 0},
+             "_obligation": "O1", "_covers": ["ran"], "unwind": 60} for u in (0, 1) for i, nm in enumerate(("save", "update", "delete"))]
+
+
 def seq_jobs(tier):
     return [{"id": "O1.sequence", "func": "VerifH_C14_FaultPropagation", "conf": {}, "_obligation": "O1+O2", "_covers": ["ran"]}]
 
@@ -54,11 +59,12 @@ PROPERTY = {
         dict(_c02.SUITE, name="merge", jobs=merge_jobs),
         dict(_c20.SAVE_SUITE, name="save", jobs=save_jobs),
         dict(_c02.SUITE, name="ensuretxn", jobs=ensure_jobs, files=["zz_verif_env.go", "zz_verif_merge.go", "zz_verif_c05txn.go"]),
+        dict(_c02.SUITE, name="index", jobs=index_jobs, files=["zz_verif_env.go", "zz_verif_merge.go", "zz_verif_c07uniq.go", "zz_verif_c07maint.go"]),
         {"name": "sequence", "pkg": "internal/db/sequence", "files": ["zz_verif_c14.go"], "common": ["intrinsics", "kvmodel"], "jobs": seq_jobs},
         {"name": "txn", "pkg": "internal/datastore", "files": ["zz_verif_txn.go"], "common": ["intrinsics", "kvmodel"], "jobs": txn_jobs},
     ],
     "bounds": {"faults per call": "<=2 among the first 16 store operations (every kernel issues fewer; asserted)", "fault kinds": "get/set/delete/has/iterator/next/value/close/commit returning an error"},
     "assumptions": ["kvmodel with a symbolic fault schedule stands for the store; the real stores are not executed",
                     "atomicity of an API call then follows from ensureContextTxn/defer Discard/commit-on-success (checked: callbacks iff commit)"],
-    "outside_claim": ["the API-level statement over documents, schema, indexes, import (client.Document / planner / GraphQL paths)"],
+    "outside_claim": ["the API-level statement over documents, schema, index create/drop, import (planner / GraphQL paths); secondary index maintenance is covered at the kernel level only (Save / Update / Delete of one index)"],
 }
